@@ -623,4 +623,47 @@ Section Accept.
     unfold deserialize. rewrite Hh. cbn [bind]. rewrite Hsz, Hpc. cbn [bind]. rewrite Hrb. cbn [bind].
     rewrite Hrl. exact Hkr.
   Qed.
+
+  (* ------------------------------------------------------------------ *)
+  (* 4. the parsed roots are the constructed cells of the decoded trees  *)
+  (*    (appended for C03; the lemmas above are unchanged)               *)
+  (* ------------------------------------------------------------------ *)
+  Lemma roots_agree_built (ks : list kcell) (ts : list cell) :
+    Forall2 (fun k t => build H t = Ok k) ks ts ->
+    forall roots, forallb (fun r => r <? N.of_nat (length ks)) roots = true ->
+    exists kr, mapM (fun ri => nth_r ks (N.to_nat ri)) roots = Ok kr /\
+               Forall2 (fun k t => build H t = Ok k) kr (map (fun r => nth (N.to_nat r) ts dflt) roots).
+  Proof.
+    intros HF. induction roots as [|x roots IH]; intro Hr.
+    - exists []. split; [reflexivity|constructor].
+    - cbn [forallb] in Hr. apply andb_prop in Hr. destruct Hr as [Hx Hr].
+      destruct (IH Hr) as (kr & E1 & E2).
+      destruct (Forall2_nth_error _ _ _ HF (N.to_nat x) dflt) as (k & Ek & Bk); [lia|].
+      exists (k :: kr). cbn [mapM map]. unfold nth_r at 1. rewrite Ek. cbn [bind]. rewrite E1. cbn [bind].
+      split; [reflexivity|]. constructor; [exact Bk|exact E2].
+  Qed.
+
+  Lemma parser_accepts_valid_built : forall d roots cs, bytes_ok d ->
+    s_all_cells d = Some cs -> s_decode d = Some roots ->
+    Forall (fun t => is_ok (build H t) = true) cs ->
+    exists ks, deserialize H d = Ok ks /\ Forall2 (fun k t => build H t = Ok k) ks roots.
+  Proof.
+    intros d roots cs Hbytes Hall Hdec HF.
+    unfold s_all_cells in Hall. unfold s_decode in Hdec.
+    destruct (s_parse d) as [b|] eqn:Hp; [|discriminate].
+    destruct (s_valid b) eqn:Hv; [|discriminate].
+    injection Hall as <-. injection Hdec as <-.
+    destruct (header_agree d b Hbytes Hp) as (h & size & Hh & Hsz & Hrl & Hcs).
+    destruct (s_cells_agree _ _ _ _ _ Hcs) as [Hpc Hn].
+    unfold s_valid in Hv. apply andb_prop in Hv. destruct Hv as [Hv _].
+    apply andb_prop in Hv. destruct Hv as [Hrefs Hroots].
+    destruct (rebuild_agree (sb_cells b) 0 _ Hrefs eq_refl HF) as (ks & Hrb & HF2).
+    assert (Hlen : length ks = length (sb_cells b)).
+    { rewrite <- (map_length raw_of). eapply proj1. eapply rebuild_ok_refs. exact Hrb. }
+    rewrite <- Hlen in Hroots.
+    destruct (roots_agree_built ks _ HF2 _ Hroots) as (kr & Hkr & Hmap).
+    exists kr. split; [|exact Hmap].
+    unfold deserialize. rewrite Hh. cbn [bind]. rewrite Hsz, Hpc. cbn [bind]. rewrite Hrb. cbn [bind].
+    rewrite Hrl. exact Hkr.
+  Qed.
 End Accept.
